@@ -328,6 +328,48 @@ DrainForget ==
        ELSE UNCHANGED <<live, curT, tcap, cell, aord, ub, nextT>>
 
 -----------------------------------------------------------------------------
+(* iter() / keys() / values(): the borrowing two-cursor iterator (iter.rs   *)
+(* Iter::next / next_back).  n = next cursor (LRU end), b = next_back cursor *)
+(* (MRU end); S stands for the null cursor that marks exhaustion.  `ys` is  *)
+(* what it yielded so far, `rem` (ghost) what the abstract deque still      *)
+(* holds: the meeting-point logic must make the two agree for every word    *)
+(* over {next, next_back}, including calls past exhaustion.                 *)
+
+StartIter ==
+    /\ pend = Idle
+    /\ pend' = [op |-> "iter", n |-> IF NEnt = 0 THEN S ELSE cell[S].prev,
+                b |-> IF NEnt = 0 THEN S ELSE cell[S].next, rem |-> aord, calls |-> 0, ok |-> TRUE]
+    /\ UNCHANGED <<live, curT, tcap, cell, aord, ub, nextT>>
+
+IterStep(front) ==
+    /\ pend.op = "iter" /\ pend.calls < NS + 2
+    /\ IF pend.n = S
+       THEN \* exhausted: None, and it stays that way (fused)
+            /\ pend' = [pend EXCEPT !.calls = @ + 1, !.ok = @ /\ (pend.rem = <<>>)]
+            /\ UNCHANGED <<live, curT, tcap, cell, aord, ub, nextT>>
+       ELSE LET a == IF front THEN pend.n ELSE pend.b IN
+            IF ~IsNode(a) THEN Fail
+            ELSE LET want == IF pend.rem = <<>> THEN 0
+                             ELSE IF front THEN Head(pend.rem) ELSE pend.rem[Len(pend.rem)]
+                     rest == IF pend.rem = <<>> THEN <<>>
+                             ELSE IF front THEN Tail(pend.rem) ELSE SubSeq(pend.rem, 1, Len(pend.rem) - 1)
+                     meet == pend.n = pend.b
+                 IN /\ pend' = [pend EXCEPT !.calls = @ + 1, !.rem = rest,
+                                            !.ok = @ /\ (cell[a].k = want),
+                                            !.n = IF meet THEN S ELSE IF front THEN cell[a].prev ELSE @,
+                                            !.b = IF meet \/ front THEN @ ELSE cell[a].next]
+                    /\ UNCHANGED <<live, curT, tcap, cell, aord, ub, nextT>>
+
+EndIter ==
+    /\ pend.op = "iter"
+    /\ pend' = Idle
+    /\ UNCHANGED <<live, curT, tcap, cell, aord, ub, nextT>>
+
+(* C12 at pointer level: every yield is what the abstract deque yields, and *)
+(* None appears exactly when the deque is empty                             *)
+IterRefines == (pend.op = "iter") => pend.ok
+
+-----------------------------------------------------------------------------
 (* a panic in user code: the operation is abandoned where it stands.        *)
 (* Locals are dropped: during `move` the old table is freed (its entries    *)
 (* are MaybeUninit: they leak, they are not dropped).                       *)
@@ -360,6 +402,7 @@ Next ==
     \/ ReallocStart \/ ReallocPrehash \/ ReallocMove
     \/ \E keep \in SUBSET Keys : StartRetain(keep)
     \/ RetainStep
+    \/ StartIter \/ IterStep(TRUE) \/ IterStep(FALSE) \/ EndIter
     \/ StartDrain \/ DrainNext(TRUE) \/ DrainNext(FALSE) \/ DrainDrop \/ DrainForget
     \/ Panic
 
